@@ -363,6 +363,83 @@ theorem map_error_run (r : Runner) (env : Env) (c body : E) (x : Nat) (pre post 
       simp [macroM, iterOf, bind, Except.bind, this, Functor.map, Except.map, obs]
     · cases hr
 
+/-! ## round 2 — a present key bound to `null` is present -/
+
+/-- field selection `m.f` of a present field gives the stored value WHATEVER it is (`null` included:
+`None` is a value, not a marker for "absent"), in both runners -/
+theorem present_field_run (r : Runner) (env : Env) (a : E) (f : List Nat) (kvs : List (V × V)) (v : V)
+    (ha : ev r env a = .ok (.map kvs)) (h : lookup (.str f) kvs = .ok (some v)) :
+    ev r env (.sel a f) = .ok v := by
+  simp only [ev, ha, bind, Except.bind]
+  cases r <;> simp [select, handled, catching, h, bind, Except.bind]
+
+/-- a key bound to `null`: `m.f` is `null` (not an error) and `has(m.f)` is true, in both runners -/
+theorem null_field_present (env : Env) (a : E) (f : List Nat) (kvs : List (V × V))
+    (ha : ∀ r, ev r env a = .ok (.map kvs)) (h : lookup (.str f) kvs = .ok (some .null)) :
+    (∀ r, obs (ev r env (.sel a f)) = "n") ∧
+    ev .I env (.has a f) = .ok (.bool true) ∧ ev .C env (.has a f) = .ok (.pybool true) := by
+  refine ⟨fun r => ?_, ?_⟩
+  · rw [present_field_run r env a f kvs .null (ha r) h]; rfl
+  · simpa using has_iff_key env a f kvs (some .null) ha h (fun v hv => by cases hv; rfl)
+
+/-- the same through `m["f"]` -/
+theorem null_index_present (r : Runner) (env : Env) (a i : E) (kvs : List (V × V)) (k : V)
+    (ha : ev r env a = .ok (.map kvs)) (hi : ev r env i = .ok k) (hk : validKey k = true)
+    (h : lookup k kvs = .ok (some .null)) : obs (ev r env (.index a i)) = "n" := by
+  simp only [ev, ha, hi, bind, Except.bind, present_key kvs k .null hk h]
+  cases r <;> simp [handled, catching, obs, V.show]
+
+/-! ## round 2 — one name bound at two levels: the innermost binding wins -/
+
+/-- a name means its innermost binding, whatever the enclosing scopes (an outer macro, the evaluation
+context) bind it to -/
+theorem var_innermost (r : Runner) (env : Env) (x : Nat) (v : V) :
+    ev r ((x, v) :: env) (.var x) = .ok v := by
+  simp [ev, Env.find]
+
+/-- a binding of another name hides nothing -/
+theorem var_outer (r : Runner) (env : Env) (x y : Nat) (v : V) (h : x ≠ y) :
+    ev r ((y, v) :: env) (.var x) = ev r env (.var x) := by
+  simp [ev, Env.find, h]
+
+/-- `l.map(x, x)` is `l`, whatever `x` is bound to outside the macro -/
+theorem map_shadow_run (r : Runner) (env : Env) (c : E) (x : Nat) (l : List V)
+    (hc : ev r env c = .ok (.list l)) (hne : ∀ v, v ∈ l → v.isErr = false) :
+    ev r env (.macro .map c x (.var x)) = .ok (.list l) := by
+  have := map_run r env c (.var x) x l id hc (fun v hv => ⟨var_innermost r env x v, hne v hv⟩)
+  simpa using this
+
+/-- a nested macro that reuses the name: `l.map(x, m.map(x, x))` is `m` for every element of `l`
+(the inner `x` ranges over `m`; the outer element is hidden, not substituted) -/
+theorem nested_shadow_run (r : Runner) (env : Env) (c cm : E) (x : Nat) (l m : List V)
+    (hc : ev r env c = .ok (.list l)) (hm : ∀ v, v ∈ l → ev r ((x, v) :: env) cm = .ok (.list m))
+    (hne : ∀ w, w ∈ m → w.isErr = false) :
+    ev r env (.macro .map c x (.macro .map cm x (.var x))) = .ok (.list (l.map fun _ => .list m)) :=
+  map_run r env c _ x l (fun _ => .list m) hc
+    (fun v hv => ⟨map_shadow_run r ((x, v) :: env) cm x m (hm v hv) hne, rfl⟩)
+
+/-! ## round 2 — membership is decided by equality alone (no identity shortcut) -/
+
+/-- `x in [x]` is `x == x`: a value that is not equal to itself (a double NaN) is not in the list that
+holds it -/
+theorem in_singleton_self (x : V) (hx : x.isErr = false) : vin x (.list [x]) = .ok (eq3 x x) := by
+  rw [in_iff_exists x [x] hx]
+  have h3 := eq3_isB3 x x
+  rcases h3 with h | h | h <;> simp [existsFold, h, vor, catching, bind, Except.bind]
+
+/-- a value equal to no element is in no list — even one that contains that very value -/
+theorem in_irreflexive (x : V) (l : List V) (hx : x.isErr = false)
+    (h : ∀ y, y ∈ l → veq y x = .ok false) : vin x (.list l) = .ok (.bool false) := by
+  have hany : l.any (fun _ => false) = false := by induction l <;> simp_all
+  rw [in_bool x l (fun _ => false) hx h, hany]
+
+/-- IEEE equality on doubles is what `in` consults (the kernel does not compute `Float`; that a NaN
+satisfies the hypothesis is checked by the driver correspondence) -/
+theorem in_double_self (f : Float) (h : (f == f) = false) :
+    vin (.dbl f) (.list [.dbl f]) = .ok (.bool false) := by
+  have := in_singleton_self (.dbl f) rfl
+  simpa [eq3, veq, h] using this
+
 /-! ## non-vacuity: the hypotheses above are satisfiable, and the error cases do occur -/
 
 example : run .I (.index (.listLit [.lit (.int 1)]) (.lit (.int (-1)))) = "err" := by decide
@@ -374,5 +451,13 @@ example : run .I (.macro .map (.listLit [.lit (.int 1), .lit (.int 2)]) 0 (.bin 
 example : FreshKeys [] [(.int 1, .int 2), (.int 3, .int 4)] := by simp [FreshKeys, validKey, lookup, keyEq, bind, Except.bind]
 example : searchM (.cat (.chr 97) (.star (.chr 98))) [99, 97, 98, 98] = true := by decide
 example : searchM (.cat .bol (.chr 98)) [97, 98] = false := by decide
+example : vin (.int 1) (.list [.int 2, .int 3]) = .ok (.bool false) :=
+  in_irreflexive _ _ rfl (by intro y hy; simp at hy; rcases hy with rfl | rfl <;> rfl)
+example : run .C (.sel (.mapLit [.lit (.str [97]), .lit .null]) [97]) = "n" := by decide
+example : run .C (.has (.mapLit [.lit (.str [97]), .lit .null]) [97]) = "bT" := by decide
+example : runWith .I [(1, .lit (.int 100))]
+    (.macro .map (.listLit [.lit (.int 1), .lit (.int 2)]) 1 (.bin .add (.var 1) (.lit (.int 1)))) = "L[i2,i3]" := by decide
+example : run .I (.macro .map (.listLit [.lit (.int 1), .lit (.int 2)]) 1
+    (.macro .map (.listLit [.lit (.int 10), .lit (.int 20)]) 1 (.var 1))) = "L[L[i10,i20],L[i10,i20]]" := by decide
 
 end Cel.Props.C09
